@@ -1,22 +1,8 @@
-(* C12/Run.v — line driver: `p <ctx> <hex>` (Message::from_bytes, then every accessor) and, for the witness that the
-   crash is reachable from a socket, `s <hex> ...` (raw messages on a connection).  Spec column: NOPANIC. *)
-From ZV Require Import Base.Bytes Base.Res Base.Sig C11.Model C11.Spec C11.Run C12.Spec C13.Model C13.Run.
+(* C12/Run.v — line driver: `p <ctx> <hex>` (Message::from_bytes, then every accessor) and `s <hex> ...` (raw messages on
+   a live connection: a crash of the reader task would show as HANG).  Spec column: NOPANIC.  No known-deviation class
+   remains (fix: commits e5b4d5a2, b3fdf920), so the class column is always "-". *)
+From ZV Require Import Base.Bytes Base.Res Base.Sig C11.Model C11.Spec C11.Run C13.Model C13.Run.
 Open Scope N_scope.
-
-(* class of a stream: class of the first frame in a known class *)
-Fixpoint stream_class12 (fuel : nat) (stream : bytes) : c12class :=
-  match fuel with
-  | O => KNone
-  | S f =>
-      match next_frame stream with
-      | FrMsg e bytes rest =>
-          match classify12 e bytes with
-          | KNone => match from_raw_parts e bytes with Ok _ => stream_class12 f rest | _ => KNone end
-          | c => c
-          end
-      | _ => KNone
-      end
-  end.
 
 Definition run_case (line : bytes) : outp :=
   let ws := words line in
@@ -24,15 +10,12 @@ Definition run_case (line : bytes) : outp :=
   | k :: args =>
       if lbeq k (B "p") then
         match parse_p ws with
-        | Some (ctx, b) =>
-            {| o_model := out_parse_res (from_raw_parts ctx b) 0; o_spec := B "NOPANIC"; o_class := class12_name (classify12 ctx b) |}
+        | Some (ctx, b) => {| o_model := out_parse_res (from_raw_parts ctx b) 0; o_spec := B "NOPANIC"; o_class := dash |}
         | None => bad_case
         end
       else if lbeq k (B "s") then
         match unhex_all args with
-        | Some stream =>
-            {| o_model := render_items (read_stream stream); o_spec := B "NOPANIC";
-               o_class := class12_name (stream_class12 (S (length stream)) stream) |}
+        | Some stream => {| o_model := render_items (read_stream stream); o_spec := B "NOPANIC"; o_class := dash |}
         | None => bad_case
         end
       else bad_case
